@@ -513,3 +513,158 @@ class SlicerInit(Contract):
             want = self.kw.get(name, default)
             got = f.get(name)
             cx.oblige(f"post.option.{name}", (got is want) if not is_scalar(want) or isinstance(want, Sym) else got == want, "post")
+
+
+# ------------------------------------------------------------------------------------------------ float-robust partition
+from vf.engine.values import Builtin as _B  # noqa: E402
+
+
+def opaque_edges(itp, tag):
+    """floating-point edge sequence as the library computes it: OPAQUE values; the only law used is that the
+    sequence is non-decreasing (rounding is monotone, the step is positive).  No arithmetic identity between edges."""
+    cx = itp.cx
+    n = cx.sym(f"{tag}_n", "int")
+    cx.assume(T.ge(n, 1))
+    f = T.uf(f"{tag}_edge", "int", "real")
+    a, b = z3.Ints(f"{tag}_a {tag}_b")
+    cx.fact(z3.ForAll([a, b], z3.Implies(z3.And(0 <= a, a <= b, b < n), f(a) <= f(b)), patterns=[z3.MultiPattern(f(a), f(b))]),
+            "float: arange / linspace with a positive step yield a non-decreasing sequence (monotone rounding)")
+    arr = SArr.fresh((n,), lambda idx: f(T.zi(idx[0])), "real", name=f"{tag}_edges")
+    return arr, n, f
+
+
+class FloatRobustBase(Contract):
+    """partition of the covered range for FLOATING-POINT data and edges: the proof uses only that neighbouring
+    intervals share one and the same edge value, that the edge sequence is non-decreasing, and exact comparisons -
+    no real-arithmetic identity (valid for IEEE doubles).  never-two directly; never-none by induction on the
+    number of intervals (base + step obligations with an explicit witness)."""
+
+    def setup(self, itp, case):
+        itp.summaries[IV + "IntervalSlicer._drop_too_small_intervals"] = drop_summary
+
+    def partition_obligations(self, itp, case, closed_last, right_open=True):
+        cx = itp.cx
+        pre = itp.scratch.get("predrop")
+        if pre is None:
+            cx.oblige("post.drop_applied", False, "post")
+            return
+        slices, refs, bounds = pre
+        m = seq_len(slices)
+        lo = lambda j: term_of(seq_elem(bounds, j)[0])
+        hi = lambda j: term_of(seq_elem(bounds, j)[1])
+        (k,) = fresh_index(cx, (self.n,))
+        d = self.data.get((k,))
+        j = cx.fresh("j", "int")
+        cx.assume(T.land(T.ge(j, 0), T.lt(j, m)))
+
+        def member(jj):
+            if right_open:
+                base = T.land(T.le(lo(jj), d), T.lt(d, hi(jj)))
+                if closed_last:
+                    return T.ite(T.eq(jj, T.sub(m, 1)), T.land(T.le(lo(jj), d), T.le(d, hi(jj))), base)
+                return base
+            return T.land(T.lt(lo(jj), d), T.le(d, hi(jj)))
+        mask = seq_elem(slices, j)
+        cx.require("post.value_based", T.eq(mask.get((k,)), member(j)), "post", "membership of position k in interval j is decided by comparing data[k] with interval j's own boundaries")
+        cx.oblige("post.shared_edges", T.implies(T.lt(j, T.sub(m, 1)), T.eq(hi(j), lo(T.add(j, 1)))), "post",
+                  "the upper boundary of interval j IS the lower boundary of interval j+1 (one value, not two expressions)")
+        cx.oblige("post.edges_monotone", T.le(lo(j), hi(j)), "post", "boundaries are ordered")
+        # the two facts just proved for an arbitrary j, as universally quantified hypotheses of the lemmas
+        q = z3.Int("pq")
+        shared = z3.ForAll([q], z3.Implies(z3.And(q >= 0, q < T.zi(m) - 1), T.zr(hi(q)) == T.zr(lo(q + 1))))
+        ordered = z3.ForAll([q], z3.Implies(z3.And(q >= 0, q < T.zi(m)), T.zr(lo(q)) <= T.zr(hi(q))))
+        # chain: lo is non-decreasing (induction on the distance, via shared + ordered): base + step
+        a, b = z3.Ints("ca cb")
+        cx.oblige_from("lemma.lower_edges_monotone.step", z3.Implies(z3.And(0 <= a, a <= b, b + 1 < T.zi(m), T.zr(lo(a)) <= T.zr(lo(b))), T.zr(lo(a)) <= T.zr(lo(b + 1))),
+                       [shared, ordered], "lemma", "lo(a) <= lo(b) implies lo(a) <= lo(b+1)")
+        mono = z3.ForAll([a, b], z3.Implies(z3.And(0 <= a, a <= b, b < T.zi(m)), T.zr(lo(a)) <= T.zr(lo(b))))
+        j2 = cx.fresh("j2", "int")
+        cx.assume(T.land(T.gt(j2, j), T.lt(j2, m)))
+        cx.oblige_from("lemma.never_two", T.lnot(T.land(member(j), member(j2))), [shared, ordered, mono, T.zb(T.land(T.ge(j, 0), T.lt(j, j2), T.lt(j2, m)))], "lemma",
+                       "no observation is in two intervals: d < hi(j) = lo(j+1) <= lo(j2) <= d is impossible")
+        # never-none by induction on kk: lo(0) <= d < hi(kk)  ->  some j <= kk contains d   (witness W)
+        W = T.uf("partition_witness", "int", "int")
+        kk = z3.Int("pk")
+        inside = lambda t: z3.And(T.zr(lo(0)) <= T.zr(d), T.zr(d) < T.zr(hi(t)))
+        holds = lambda w: z3.And(w >= 0, T.zr(lo(w)) <= T.zr(d), T.zr(d) < T.zr(hi(w)))
+        if right_open:
+            cx.oblige_from("lemma.never_none.base", z3.Implies(inside(z3.IntVal(0)), holds(z3.IntVal(0))), [], "lemma")
+            ih = z3.Implies(inside(kk), z3.And(holds(W(kk)), W(kk) <= kk))
+            cx.oblige_from("lemma.never_none.step", z3.Implies(z3.And(kk >= 0, kk + 1 < T.zi(m), ih, inside(kk + 1)), z3.Or(holds(W(kk)), holds(kk + 1))),
+                           [shared, ordered], "lemma", "if d is below hi(k+1) it is in one of the first k+1 intervals or in interval k+1 (hi(k) = lo(k+1))")
+
+
+@contract(IV + "WidthOfIntervalSlicer._slice", ["C10"], [dict(right_open=True), dict(right_open=False)], name="slicer.width.partition_float_robust")
+class WidthFloatRobust(FloatRobustBase):
+    def case_label(self, case):
+        return f"right_open={case['right_open']}"
+
+    def setup(self, itp, case):
+        super().setup(itp, case)
+        me = self
+
+        def arange(itp_, a, k):
+            arr, n, f = opaque_edges(itp_, "w")
+            me.edge_n, me.edge_f = n, f
+            return arr
+        itp.lib.table["numpy.arange"] = _B("numpy.arange", arange)
+
+    def inputs(self, itp, case):
+        cx = itp.cx
+        self.n = cx.sym("n", "int")
+        cx.assume(T.ge(self.n, 1))
+        self.data = sym_array(cx, "data", (self.n,))
+        self.w = real(cx, "width")
+        cx.assume(T.gt(self.w.t, 0))
+        self.obj = slicer_obj("WidthOfIntervalSlicer", width=self.w, reference="center", right_open=case["right_open"], value_range=None)
+        return [self.obj, self.data], {}
+
+    def post(self, itp, case, inp, out):
+        if out.outcome != "return":
+            itp.cx.oblige("post.returns", False, "post", f"raised {out.exc}: {out.msg}")
+            return
+        self.partition_obligations(itp, case, closed_last=False, right_open=case["right_open"])
+
+
+@contract(IV + "NumberOfIntervalsSlicer._slice", ["C10"], [dict(include_max=True), dict(include_max=False)], name="slicer.number.partition_float_robust")
+class NumberFloatRobust(FloatRobustBase):
+    def case_label(self, case):
+        return f"include_max={case['include_max']}"
+
+    def setup(self, itp, case):
+        super().setup(itp, case)
+        me = self
+
+        def linspace(itp_, a, k):
+            arr, n, f = opaque_edges(itp_, "l")
+            cx = itp_.cx
+            cx.assume(T.eq(n, term_of(k.get("num", a[2] if len(a) > 2 else 50))), "one start per interval")
+            stop = term_of(a[1])
+            cx.fact(z3.And(f(0) == T.zr(term_of(a[0])), f(T.zi(n) - 1) <= T.zr(stop)), "float: linspace(start, stop, endpoint=False) starts exactly at start and stays <= stop")
+            step = Sym(cx.fresh("float_step", "real"))
+            return (arr, step) if k.get("retstep") else arr
+        itp.lib.table["numpy.linspace"] = _B("numpy.linspace", linspace)
+
+    def inputs(self, itp, case):
+        cx = itp.cx
+        self.n = cx.sym("n", "int")
+        cx.assume(T.ge(self.n, 1))
+        self.data = sym_array(cx, "data", (self.n,))
+        self.ni = integer(cx, "n_intervals")
+        cx.assume(T.ge(self.ni.t, 1))
+        self.obj = slicer_obj("NumberOfIntervalsSlicer", n_intervals=self.ni, reference="center", include_max=case["include_max"], value_range=None)
+        return [self.obj, self.data], {}
+
+    def post(self, itp, case, inp, out):
+        cx = itp.cx
+        if out.outcome != "return":
+            cx.oblige("post.returns", False, "post", f"raised {out.exc}: {out.msg}")
+            return
+        self.partition_obligations(itp, case, closed_last=case["include_max"], right_open=True)
+        pre = itp.scratch.get("predrop")
+        if pre is not None and case["include_max"]:
+            bounds = pre[2]
+            m = seq_len(bounds)
+            dmax = term_of(itp.lib.table["numpy.max"].fn(itp, [self.data], {}))
+            cx.oblige("post.max_covered", T.eq(term_of(seq_elem(bounds, T.sub(m, 1))[1]), dmax), "post",
+                      "the last interval ends exactly at the maximum (so include_max covers it, also in floating point)")
